@@ -46,7 +46,7 @@ def features(deck):
     return sorted(f)
 
 
-def run(chk, decks, clauses, seed, optsets, npts=110, decorate=None, lo=-11, hi=11):
+def run(chk, decks, clauses, seed, optsets, npts=110, decorate=None, lo=-11, hi=11, moved_every=0):
     """Each deck is converted under every option set of optsets(deck, rng)."""
     rng = random.Random(seed)
     jobs, nd, meta = [], {}, {}
@@ -65,6 +65,18 @@ def run(chk, decks, clauses, seed, optsets, npts=110, decorate=None, lo=-11, hi=
             nd[tid] = d
             meta[tid] = {'deck_index': i, 'opts': opts}
             jobs.append({'tid': tid, 'deck': d, 'opts': opts, 'keep_parsed': False})
+        if moved_every and i % moved_every == 0:
+            # covariance: the whole world (every frame) moved by a general rigid motion; TLC keeps the exact deck
+            phi = adeck.PHIS[(i // moved_every) % len(adeck.PHIS)]
+            mv = adeck.moved_world(d, phi)
+            if mv is not None:
+                tid += 1
+                nd[tid] = d
+                opts = optsets(d, rng)[0]
+                meta[tid] = {'deck_index': i, 'opts': opts, 'moved': True}
+                jobs.append({'tid': tid, 'deck': d, 'opts': opts, 'keep_parsed': False, 'text': adeck.concretise(mv),
+                             'real_points': adeck.moved_points(d['pts'], phi)})
+                chk.extra['moved_world_decks'] = chk.extra.get('moved_world_decks', 0) + 1
     core.lap('prepare')
     records = conv.run_batch(deckrun.run_deck, jobs, chunksize=8)
     core.lap('converter x%d' % len(jobs))
